@@ -3037,6 +3037,12 @@ def c15_switches(sp: ase.Sprite, rng: random.Random) -> List[Tuple[str, ase.Spri
                 if ch.ctype_cel == 3:
                     for bits in [8, 16, 31, 33, 64, 0]:
                         variant("bits per tile %d at frame %d chunk %d" % (bits, fi, ci), lambda c, fi=fi, ci=ci, bits=bits: setattr(c.frames[fi].chunks[ci], "tm_bits", bits))
+                    # the same on a tilemap that stores NO tiles (0 x h, w x 0): there is nothing to decode, the width is still unsupported
+                    for bits, (zw, zh) in [(16, (0, 0)), (8, (0, 3)), (64, (2, 0))]:
+                        def empty_tm(c, fi=fi, ci=ci, bits=bits, zw=zw, zh=zh):
+                            cc = c.frames[fi].chunks[ci]
+                            cc.tm_bits, cc.w, cc.h, cc.tiles, cc.zraw = bits, zw, zh, [], None
+                        variant("bits per tile %d on an empty %dx%d tilemap at frame %d chunk %d" % (bits, zw, zh, fi, ci), empty_tm)
             elif isinstance(ch, ase.TagsChunk):
                 for ti in range(len(ch.tags)):
                     for dd in [3, 4, 255]:
